@@ -2,7 +2,7 @@
 
 Space: the model of gen/xrefmodels.xm3 (see checks/c13.py) -- the body of A.m<k> is every sequence of <= 2 (thorough: <= 3)
 items of the reference alphabet, whose string part is const-string / const-string/jumbo on {"s1", "s2", "LB;" (a value that is
-also a type descriptor of the file)} and whose class part is new-instance / const-class on {LB;, LA; (self), Lext/E;, [LB;, [I},
+also a type descriptor of the file), "" (the empty string)} and whose class part is new-instance / const-class on {LB;, LA; (self), Lext/E;, [LB;, [I},
 plus check-cast / instance-of / new-array as type references that are NOT class-usage xrefs.  A.n and D.r (second DEX) load the
 same strings and use the same classes, so every StringAnalysis / ClassAnalysis is shared across methods and DEX files.
 Oracle (ref/xref.py): StringAnalysis(value).get_xref_from(with_offset=True) == exactly the const-strings of that value;
@@ -14,11 +14,13 @@ from checks import xref_common as C
 
 PROPERTY = "C15"
 LEVEL = "exploration"
-RULE = ("every body of <= 2 (thorough <= 3) items over a 129-item reference alphabet + 110 extended single items, one generated "
+RULE = ("every body of <= 2 (thorough <= 3) items over a 149-item reference alphabet + 150 extended single items, one generated "
         "program per body; non-trivial = the body contains a const-string, new-instance or const-class; distinct by construction "
         "(the sequence is the enumeration index)")
 ASSUMPTIONS = ["operands that are the method's own class or an array of a class are 'not another class': their entries may be present "
                "(under the element class, at the right method and offset) or absent; nothing else may appear",
+               "references of a class to itself must be treated uniformly within one analysis (all listed or none): a mix means the "
+               "result depends on processing order (key class-use:other-then-self)",
                "arrays of primitives have no class: nothing may appear anywhere for them",
                "only the with_offset=True form of StringAnalysis.get_xref_from is judged",
                "class-level get_xref_to/get_xref_from entries of kind new-instance/const-class are not judged (documented as unreliable)",
@@ -71,7 +73,7 @@ def replay(ctx, w):
 
 def finalize(ctx, acc):
     x = acc.extra
-    need = ["string:const-string", "string:const-string/jumbo"]
+    need = ["string:const-string", "string:const-string/jumbo", "string-value:''", "class-use of a class that also references itself"]
     need += ["%s:%s" % (op, tk) for op in ("new-instance", "const-class")
              for tk in ("internal", "internal:cross-dex", "self", "external", "array-of-class", "array-of-primitive")
              if not (op == "const-class" and tk == "internal:cross-dex")]
